@@ -356,8 +356,9 @@ type Run struct {
 }
 
 func withGlobals(c Cfg, now int64, f func()) {
-	oldNow, oldDelay, oldSkew := saml.TimeNow, saml.MaxIssueDelay, saml.MaxClockSkew
-	defer func() { saml.TimeNow, saml.MaxIssueDelay, saml.MaxClockSkew = oldNow, oldDelay, oldSkew }()
+	oldNow, oldDelay, oldSkew, oldLocal := saml.TimeNow, saml.MaxIssueDelay, saml.MaxClockSkew, time.Local
+	defer func() { saml.TimeNow, saml.MaxIssueDelay, saml.MaxClockSkew, time.Local = oldNow, oldDelay, oldSkew, oldLocal }()
+	time.Local = time.FixedZone("harness-local", 5*3600+1800) // nothing may depend on the process's zone
 	saml.TimeNow = func() time.Time { return time.Unix(0, now).UTC() }
 	saml.MaxIssueDelay, saml.MaxClockSkew = time.Duration(c.MaxIssueDelay), time.Duration(c.MaxClockSkew)
 	f()
